@@ -222,6 +222,39 @@ fn write_forwarded_suffix(
     );
 }
 
+/// Checks, on the header blocks kawa's HTTP/1 parser produced for a request,
+/// the framing rules kawa itself is lenient about. Returns the reason of the
+/// first violation; the caller turns it into a parse error (answered 400).
+///
+/// - `Transfer-Encoding` must be exactly `chunked`, once. kawa frames a message
+///   as chunked whenever the value merely ENDS with `chunked` (`xchunked`,
+///   `gzip, chunked`) and ignores repetitions, then forwards the field
+///   verbatim: a backend that does not recognise the coding, or that combines
+///   the repeated fields into `chunked, chunked`, frames the message
+///   differently than sozu did (TE.TE request smuggling, CWE-444).
+fn h1_framing_violation(
+    blocks: &std::collections::VecDeque<kawa::Block>,
+    buf: &[u8],
+) -> Option<&'static str> {
+    let mut transfer_encoding_seen = false;
+    for block in blocks {
+        let kawa::Block::Header(header) = block else {
+            continue;
+        };
+        if header.is_elided() {
+            continue;
+        }
+        let key = header.key.data(buf);
+        if compare_no_case(key, b"transfer-encoding") {
+            if transfer_encoding_seen || !compare_no_case(header.val.data(buf), b"chunked") {
+                return Some("Transfer-Encoding is not exactly one `chunked`");
+            }
+            transfer_encoding_seen = true;
+        }
+    }
+    None
+}
+
 /// This is the container used to store and use information about the session from within a Kawa parser callback
 #[derive(Debug)]
 pub struct HttpContext {
@@ -598,6 +631,24 @@ impl HttpContext {
             && request.parsing_phase == kawa::ParsingPhase::Body
         {
             request.parsing_phase = kawa::ParsingPhase::Terminated;
+        }
+
+        // Framing fields a backend could read differently than kawa did are
+        // refused (400) instead of being forwarded verbatim. Only requests
+        // parsed from the HTTP/1 wire are concerned: pkawa validates the
+        // HTTP/2 equivalents before this callback runs.
+        let from_h1_wire = matches!(
+            request.detached.status_line,
+            kawa::StatusLine::Request {
+                version: kawa::Version::V10 | kawa::Version::V11,
+                ..
+            }
+        );
+        if from_h1_wire {
+            if let Some(reason) = h1_framing_violation(&request.blocks, buf) {
+                request.parsing_phase.error(reason.into());
+                return;
+            }
         }
 
         let public_ip = self.public_address.ip();
